@@ -8,7 +8,7 @@
     Section hypotheses (named in the trusted base): codec round trip, page-header parse/encode round trip, footer
     parse/encode round trip (C13 / C09 for carquet's own code; zlib and zstd are external). *)
 From Coq Require Import NArith ZArith Arith List Bool Lia.
-From Carquet Require Import Base.Res Gen.Enums_gen Enc.DeltaBits
+From Carquet Require Import Base.Res Gen.Enums_gen Gen.Writer_gen Enc.DeltaBits
   Writer.TableSpec Writer.PageWriterModel Writer.ColumnWriterModel Writer.FileWriterModel
   Reader.PageDecodeModel Reader.ReadAllModel Reader.FooterModel Reader.FooterProofs
   Writer.WriterProofs Writer.ChunkProofs.
@@ -85,6 +85,10 @@ Lemma le_val_le_num bs : FooterModel.le_val bs = le_num_f bs.
 Proof. induction bs as [|b t IH]; [reflexivity|]. cbn [FooterModel.le_val le_num_f]. rewrite IH. reflexivity. Qed.
 
 Lemma magic_eq : FooterModel.magic = FileWriterModel.magic.
+Proof. reflexivity. Qed.
+
+(** tie (a): the magic the model writes is the one regenerated from file_writer.c *)
+Example magic_tied : FileWriterModel.magic = Gen.Writer_gen.Writer_MAGIC.
 Proof. reflexivity. Qed.
 
 Lemma skipn_app_exact {A} (a b : list A) n : n = length a -> skipn n (a ++ b) = b.
@@ -401,7 +405,7 @@ Section File.
   Definition Closed (w : fw) (allg : list rowgroup) : Prop :=
     f_total_rows w = N.of_nat (sum_rows allg) /\
     Forall2 (GroupOK (f_out w)) (f_groups w) allg /\
-    exists data, let m := mkfm 2 sch (N.of_nat (sum_rows allg)) (f_groups w) created_by in
+    exists data, let m := mkfm footer_version sch (N.of_nat (sum_rows allg)) (f_groups w) created_by in
                  f_out w = magic ++ data ++ footer m ++ le32 (len (footer m)) ++ magic.
 
   Lemma flush_keeps_header w : f_header_written (flush_row_group compress header w) = f_header_written w.
@@ -486,7 +490,7 @@ Section File.
   Theorem write_read_roundtrip ops t : table_of sch ops = Some t ->
     exists sts w, run_writer compress header footer sch opts ops = Ok (sts, w, true) /\ all_ok sts = true /\
       (Forall (fun g => Forall small_chunk (rg_chunks g)) (f_groups w) ->
-       len (footer (mkfm 2 sch (f_total_rows w) (f_groups w) created_by)) < 2 ^ 32 ->
+       len (footer (mkfm footer_version sch (f_total_rows w) (f_groups w) created_by)) < 2 ^ 32 ->
        exists r, read_all codec decompress parse_header parse_footer verify (f_out w) = Ok r
                  /\ drop_empty r = result_of_table t).
   Proof.
@@ -497,7 +501,7 @@ Section File.
       as (sts & w & allg & Er & Ho & Hg & (Erows & Gs & data & Eo)).
     exists sts, w. split; [exact Er|]. split; [exact Ho|].
     intros Hsm Hft. cbv zeta in Eo. rewrite Erows in Hft.
-    set (m := mkfm 2 sch (N.of_nat (sum_rows allg)) (f_groups w) created_by) in *.
+    set (m := mkfm footer_version sch (N.of_nat (sum_rows allg)) (f_groups w) created_by) in *.
     unfold read_all. rewrite Eo. rewrite open_written by exact Hft. rewrite footer_roundtrip.
     cbn [fm_schema fm_groups fm_num_rows m].
     (* the groups are read from the complete file *)
